@@ -4,6 +4,9 @@ use crate::util::*;
 use rbpf::helpers;
 use serde_json::{json, Value};
 
+/// values for argument positions a helper does not use
+const JUNK: [u64; 4] = [1, 2, 3, u64::MAX];
+
 fn capture_stdout<F: FnOnce() -> u64>(f: F) -> (u64, Vec<u8>) {
     use std::io::Write;
     std::io::stdout().flush().ok();
@@ -67,6 +70,20 @@ fn check(rec: &Value) -> Vec<String> {
             if ret != 0 {
                 bad.push(format!("memfrob returned {ret}"));
             }
+            // the three unused arguments do not matter
+            for junk in JUNK {
+                helpers::memfrob(base + p as u64 - 1, n, junk, junk, junk);
+                if mem[32..32 + buf.len()] != bytes(&rec["exp"]["once"])[..] || mem[..32].iter().chain(mem[32 + buf.len()..].iter()).any(|b| *b != 0xa5) {
+                    bad.push(format!("memfrob(buf+{}, {n}) with {junk:#x} in its unused arguments: bytes {:?}, specified {}", p - 1, &mem[32..32 + buf.len()], rec["exp"]["once"]));
+                }
+                helpers::memfrob(base + p as u64 - 1, n, junk, junk, junk);
+            }
+            // nothing to touch: any pointer will do, also a null one
+            if n == 0 {
+                for ptr in [0u64, 1, 8, u64::MAX] {
+                    helpers::memfrob(ptr, 0, 0, 0, 0);
+                }
+            }
         }
         "strcmp" => {
             let buf = bytes(&a[0]);
@@ -74,6 +91,12 @@ fn check(rec: &Value) -> Vec<String> {
             let got = helpers::strcmp(base + a[1].as_u64().unwrap() - 1, base + a[2].as_u64().unwrap() - 1, 0, 0, 0);
             if got != rec["exp"].as_u64().unwrap() {
                 bad.push(format!("strcmp on {:?} at {} / {} = {got}, specified {}", buf, a[1], a[2], rec["exp"]));
+            }
+            for junk in JUNK {
+                let g = helpers::strcmp(base + a[1].as_u64().unwrap() - 1, base + a[2].as_u64().unwrap() - 1, junk, junk, junk);
+                if g != rec["exp"].as_u64().unwrap() {
+                    bad.push(format!("strcmp on {:?} at {} / {} with {junk:#x} in its unused arguments = {g}, specified {}", buf, a[1], a[2], rec["exp"]));
+                }
             }
         }
         "strcmpnull" => {
@@ -124,14 +147,16 @@ pub fn observe(seed: u64, n: usize) -> Vec<Value> {
         xs.push((root * root).wrapping_sub(1));
     }
     for x in xs {
-        let res = std::panic::catch_unwind(|| helpers::sqrti(x, 0, 0, 0, 0));
+        let junk = JUNK[(x % 4) as usize] * (x & 1);
+        let res = std::panic::catch_unwind(|| helpers::sqrti(x, junk, junk, junk, junk));
         ev.push(json!({"f": "sqrti", "args": [word_json(x)], "ret": word_json(res.as_ref().copied().unwrap_or(0)), "ok": res.is_ok()}));
     }
     let pairs: Vec<(u64, u64)> = vec![(0, 1), (0, u64::MAX), (1, u64::MAX), (u64::MAX - 1, u64::MAX), (5, 6), (0, 0), (7, 3), (10, 20),
                                      (1 << 63, (1 << 63) + 1), (0, 255), (u64::MAX, u64::MAX), (100, 100)];
     for (mn, mx) in pairs {
         for _ in 0..(20 + n / 10) {
-            let res = std::panic::catch_unwind(|| helpers::rand(mn, mx, 0, 0, 0));
+            let junk = JUNK[(mn % 4) as usize] * (mx & 1);
+            let res = std::panic::catch_unwind(|| helpers::rand(mn, mx, junk, junk, junk));
             ev.push(json!({"f": "rand", "args": [word_json(mn), word_json(mx)], "ret": word_json(res.as_ref().copied().unwrap_or(0)), "ok": res.is_ok()}));
         }
     }
